@@ -24,11 +24,18 @@ ASSUMPTIONS = [
     "(Connector::requests), never from the connector's internal subscription id",
     "instruments of one subscription set have distinct venue names; `MarketInstrumentData` instruments are "
     "subscribed with the venue's own symbol as name_exchange",
-    "three instrument flavours per route: Keyed<u32, MarketDataInstrument>, MarketInstrumentData<u32>, and the indexed "
+    "instrument flavours per route: Keyed<u32, MarketDataInstrument>, MarketInstrumentData<u32>, and the indexed "
     "flavour: an IndexedInstruments collection of the route's whole universe + the real "
     "index_market_data_subscription_batches (as the indexed dynamic stream builder does) -> "
     "Keyed<InstrumentIndex, MarketDataInstrument>; the event must carry the InstrumentIndex of exactly the instrument "
     "subscribed under the market; universe instruments are pairwise distinguishable by (exchange, kind, base, quote)",
+    "fourth flavour `generated` (the path of init_indexed_multi_exchange_market_stream): an IndexedInstruments "
+    "collection over several exchanges in shuffled insertion order -> the real "
+    "generate_indexed_market_data_subscription_batches (trades, L1, both, a kind twice) -> the real validate_batches; "
+    "the harness judges the batches against the collection (one batch per exchange, exactly its instruments x kinds, "
+    "key = position in the collection, exact duplicates removed, distinct subscriptions kept), the spec judges the "
+    "attribution of messages (the index an event carries is translated to the spec's key by looking the position up in "
+    "the collection); decoy exchanges are those that support all requested kinds",
     "a market may be subscribed twice in a row (the same instrument again, or a second instrument with its own key "
     "that resolves to the same market - not for the indexed flavour, where the indexer gives both the same index): for "
     "that market either key is acceptable, every other market must carry exactly its own key; the simulated Bitfinex "
@@ -254,7 +261,16 @@ def arms(ctx, info, need=True):
                           {"route": route, "flavour": fl, "scenario": {"evs": [
                               {"a": "Subscribe", "S": ex["S"], "off": ex["off"], "d": 0, "dk": 0, "buf": False, "m": 0, "fs": []}]}})
         if need and not (v.get("messages_subscribed") and v.get("messages_unsubscribed") and v.get("subscribes")):
+            ctx.c13_vacuous = getattr(ctx, "c13_vacuous", []) + [(key, v)]
+
+
+def vacuity(ctx):
+    """a route x flavour that exercised no message arm is a tool error - unless that is the finding
+    (its subscriptions failed and were reported as violations)"""
+    for key, v in getattr(ctx, "c13_vacuous", []):
+        if not any(x.sig.startswith(key + ":") for x in ctx.violations):
             raise vlib.ToolError("vacuous run: route %s exercised %s" % (key, v))
+    ctx.c13_vacuous = []
 
 
 def check(ctx):
@@ -281,6 +297,7 @@ def check(ctx):
         info = ctx.harness("c13", "run", "--scenarios", scn, "--out", out, "--onesided", "skip" if label == "transitions" else "map")
         arms(ctx, info)
         keep = validate(ctx, out, label)
+        vacuity(ctx)
         ctx.cov["scenarios_replayed"] += sum(1 for l in keep if l["a"] == "Reset")
         if label == "transitions":
             ok = [l for l in keep if l["a"] == "Message" and l["out"] and l["out"][0]["k"] == "ev"]
@@ -291,6 +308,7 @@ def check(ctx):
     info = ctx.harness("c13", "random", "--seed", ctx.seed, "--steps", steps, "--out", out)
     arms(ctx, info)
     validate(ctx, out, "random")
+    vacuity(ctx)
     total_ev = sum(h.get("out_ev", 0) for h in ctx.cov["arm_hits"].values())
     if total_ev == 0:
         raise vlib.ToolError("vacuous run: no route produced a single event")
